@@ -1999,6 +1999,10 @@ class MPO(MPSGeometry):
 
     def distance(self, other, understood_infinite: bool = False, num_sites: int = None):
         """The Frobenius distance induced by the inner product :meth:`overlap`."""
+        if num_sites is None and not self.finite and not other.finite:
+            # the three overlaps need the same window: the default of ``self.overlap(other)``
+            rs = [H.L if (H.max_range is None or H.max_range == np.inf) else H.max_range for H in (self, other)]
+            num_sites = max(self.L + 2 * rs[0], other.L + 2 * rs[1])
         ov = self.overlap(other, understood_infinite=understood_infinite, num_sites=num_sites)
         s_norm = self.overlap(self, understood_infinite=understood_infinite, num_sites=num_sites)
         o_norm = other.overlap(other, understood_infinite=understood_infinite, num_sites=num_sites)
